@@ -635,11 +635,15 @@ Definition glyph_xmin (all : list varied) (v : varied) : outcome Z :=
   | GComposite cs => composite_xmin all cs
   end.
 
-(* htmx_from_phantom_points: lsb = x_min - pp1; advance = u16::try_from(pp2 - pp1).unwrap_or(0) *)
+(* htmx_from_phantom_points (after the repair of the i16 subtractions): lsb = x_min.checked_sub(pp1) or
+   LimitExceeded; advance = u16::try_from(i32::from(pp2) - i32::from(pp1)).unwrap_or(0).  The build mode
+   no longer matters. *)
 Definition metric_from_phantom (m : mode) (xmin : Z) (v : varied) : outcome (Z * Z) :=
-  lsb <- i16_op m (xmin - v_pp1 v) ;;
-  w <- i16_op m (v_pp2 v - v_pp1 v) ;;
-  Ok ((if w <? 0 then 0 else w), lsb).
+  let lsb := xmin - v_pp1 v in
+  if (-32768 <=? lsb) && (lsb <=? 32767) then
+    let w := v_pp2 v - v_pp1 v in
+    Ok ((if (w <? 0) || (65535 <? w) then 0 else w), lsb)
+  else Err LimitExceeded.
 
 (* apply_hvar for one glyph *)
 Definition metric_from_hvar (m : mode) (h : hvar) (inst : list Z) (gid aw lsb xmin : Z) (v : varied)
